@@ -3,10 +3,12 @@
    buffer like a fresh qmail-remote); res_query/res_search are scripted by the input.
    The fake resolver behaves like the real one: it copies min(len, anslen) bytes and returns
    len (<= 65535); nothing inside the answer buffer is poisoned.
-   Input:  op(1)  namelen(1) name  { declared_len(2, big endian)  content_len(2)  content }*
+   Input:  op(1)  namelen(1) name  { declared_len(2, big endian)  content_len(2)  fillpos(2)  content }*
      op bits 0-1: 0 dns_ip  1 dns_mxip  2 dns_ptr  3 dns_mxip;  bit 2: dns_init(1) (res_search)
      declared_len 0 = the lookup fails (h_errno TRY_AGAIN if content_len is odd, else HOST_NOT_FOUND);
-     a packet is the content cut or zero-padded to declared_len bytes. */
+     a packet of exactly declared_len bytes is content[0..fillpos) + zero filler + content[fillpos..), or the
+     content cut to declared_len if it is longer: a 65535-byte answer whose LAST record ends exactly at the end
+     of the packet is thus written in a few hundred input bytes (the filler is the rdata of a TXT record). */
 #include "fuzz_common.h"
 #define main nqv_dns_nomain
 #include "dns.c"
@@ -17,18 +19,23 @@ static long lookups, failures, grown, ret_count[8];
 
 static int fake_lookup(const char *name, int class, int type, unsigned char *ans, int anslen)
 {
-  unsigned d, c; unsigned char *pkt; size_t have;
+  unsigned d, c, f; unsigned char *pkt; size_t have;
   (void) class; (void) type;
   fz_write(-1, name, strlen(name) + 1);
   lookups++;
   if (anslen > 1000) grown++;
-  if (scrlen - scroff < 4) { h_errno = HOST_NOT_FOUND; failures++; return -1; }
-  d = (scr[scroff] << 8) | scr[scroff + 1]; c = (scr[scroff + 2] << 8) | scr[scroff + 3]; scroff += 4;
+  if (scrlen - scroff < 6) { h_errno = HOST_NOT_FOUND; failures++; return -1; }
+  d = (scr[scroff] << 8) | scr[scroff + 1]; c = (scr[scroff + 2] << 8) | scr[scroff + 3]; f = (scr[scroff + 4] << 8) | scr[scroff + 5]; scroff += 6;
   have = scrlen - scroff; if (c < have) have = c;
   if (d == 0) { scroff += have; h_errno = (c & 1) ? TRY_AGAIN : HOST_NOT_FOUND; failures++; return -1; }
-  pkt = calloc(d, 1);
+  pkt = calloc(d, 1);                      /* exactly d bytes: the fake itself cannot read or write beyond the packet */
   if (!pkt) abort();
-  memcpy(pkt, scr + scroff, have < d ? have : d);
+  if (have >= d) memcpy(pkt, scr + scroff, d);
+  else {
+    if (f > have) f = (unsigned) have;
+    memcpy(pkt, scr + scroff, f);
+    memcpy(pkt + d - (have - f), scr + scroff + f, have - f);
+  }
   scroff += have;
   memcpy(ans, pkt, (int) d < anslen ? d : (unsigned) anslen);
   free(pkt);
